@@ -220,13 +220,13 @@ impl Property for C15 {
         "C15"
     }
     fn rule(&self) -> String {
-        "exhaustive: every sequence of length <=6 (thorough <=7) over {#define A, #define B, #ifdef A, #ifdef B, #ifndef A, #ifndef B, #else, #endif, marker `def m<i>;`}, one item per line; directives without a macro name (9 forms); random well-nested arrangements to depth 6 with LF/CRLF, trailing comments (after a blank, or glued to the directive word: `#endif// x`, `#else/* x */`), and whitespace / one or several block comments (also spanning lines, also containing directive look-alikes) in front of the directives; the same with 1..4 lines of text that is not TableGen placed in disabled regions (unterminated string / string ending in a backslash / code fragment / block comment opened mid-line, stray closers, mid-line directives, faulty declarations; never starting with '#' or '/*'). RefPP classifies: well nested => delivered non-trivia tokens == selected markers and zero errors; unterminated at EOF / nameless directive => >=1 error; stray #else/#endif => not asserted. distinct = digest; non-trivial = nesting depth >= 2 or an #else inside a disabled region".into()
+        "exhaustive: every sequence of length <=6 (thorough <=8) over {#define A, #define B, #ifdef A, #ifdef B, #ifndef A, #ifndef B, #else, #endif, marker `def m<i>;`}, one item per line; directives without a macro name (9 forms); random well-nested arrangements to depth 6 with LF/CRLF, trailing comments (after a blank, or glued to the directive word: `#endif// x`, `#else/* x */`), and whitespace / one or several block comments (also spanning lines, also containing directive look-alikes) in front of the directives; the same with 1..4 lines of text that is not TableGen placed in disabled regions (unterminated string / string ending in a backslash / code fragment / block comment opened mid-line, stray closers, mid-line directives, faulty declarations; never starting with '#' or '/*'). RefPP classifies: well nested => delivered non-trivia tokens == selected markers and zero errors; unterminated at EOF / nameless directive => >=1 error; stray #else/#endif => not asserted. distinct = digest; non-trivial = nesting depth >= 2 or an #else inside a disabled region".into()
     }
     fn assumptions(&self) -> Vec<String> {
         vec!["RefPP written from the Programmer's Reference: a macro is defined only by an enabled #define; no macro is predefined".into()]
     }
     fn families(&self, ctx: &Ctx) -> Vec<Family> {
-        let maxlen = ctx.tier.pick(6usize, 7usize);
+        let maxlen = ctx.tier.pick(6usize, 8usize);
         let mut v: Vec<Family> = Vec::new();
         for len in 1..=maxlen {
             v.push(Family::new(&format!("seq-len{len}"), NITEMS as u64, move |c, _r, emit| enumerate(len, c as usize, emit)).exhaustive());
@@ -243,7 +243,7 @@ impl Property for C15 {
             })
             .exhaustive(),
         );
-        v.push(Family::new("embedded-in-programs", ctx.tier.pick(200, 3000), |_c, rng, emit| {
+        v.push(Family::new("embedded-in-programs", ctx.tier.pick(200, 6000), |_c, rng, emit| {
             for _ in 0..50 {
                 if !emit(json!({"kind": "sem-pp", "seed": rng.next() >> 16, "n": 2 + rng.below(7), "opts": "clean"})) {
                     return;
@@ -252,7 +252,7 @@ impl Property for C15 {
         }));
         // text that is not TableGen inside disabled regions (unterminated strings / comments / code
         // fragments, mid-line directives): a disabled region is skipped line by line
-        v.push(Family::new("junk-in-disabled", ctx.tier.pick(60, 600), |_c, rng, emit| {
+        v.push(Family::new("junk-in-disabled", ctx.tier.pick(60, 3000), |_c, rng, emit| {
             for _ in 0..250 {
                 let mut codes = Vec::new();
                 // start inside a conditional more often than not
@@ -274,7 +274,7 @@ impl Property for C15 {
                 }
             }
         }));
-        v.push(Family::new("random-deep", ctx.tier.pick(40, 400), |_c, rng, emit| {
+        v.push(Family::new("random-deep", ctx.tier.pick(40, 4000), |_c, rng, emit| {
             for _ in 0..250 {
                 let mut codes = Vec::new();
                 random_nested(rng, 0, &mut codes);
